@@ -1,7 +1,7 @@
 (* C20 correspondence, extension: cases for the FastStr model (ModelFast.v), the word-boundary helpers and the
    LineProcessor configurations (ModelText.v).  The old cases are embedded by a coercion.  Definitions only. *)
 From ZV.Common Require Import Base Run.
-From ZV.C20 Require Import Model ModelStr ModelFast ModelText ModelUtf8 ModelStream ModelSearch ModelZo ModelSsv Cases.
+From ZV.C20 Require Import Model ModelStr ModelFast ModelText ModelUtf8 ModelStream ModelSearch ModelZo ModelSsv ModelCmp Cases.
 Open Scope N_scope.
 
 Definition eqb_on (a b : option N) : bool :=
@@ -114,7 +114,9 @@ Inductive xcase :=
 | XZo (ss : list (list N)) (accepted : bool) (gets : list (option (list N))) (iter : list (list N))
       (probes : list (list N)) (res : list (bool * N)) (ranges : list (list (list N)))
 (* SortableStrVec::new, push_str / push of every string (accepted = all Ok with ids 0, 1, ...), then get(0 .. len+1) *)
-| XPush (ss : list (list N)) (accepted : bool) (gets : list (option (list N))).
+| XPush (ss : list (list N)) (accepted : bool) (gets : list (option (list N)))
+(* SortableStrVec::fast_lexicographic_cmp(a, b) (the release-mode sort kernel, reached through the cfg(zipora_verif) hook) *)
+| XCmpK (a b : list N) (ord : Z).
 Coercion XOld : case >-> xcase.
 
 Definition xcase_ok (c : xcase) : bool :=
@@ -171,4 +173,5 @@ Definition xcase_ok (c : xcase) : bool :=
       | None => negb accepted
       | Some v => accepted && eqb_lobl (map (fun i => ssv_get v (N.of_nat i)) (seq 0 (length ss + 2))) gets
       end
+  | XCmpK a b ord => Z.eqb (ord_code (fast_lex_cmp a b)) ord
   end.
